@@ -322,6 +322,8 @@ package common
 //@   requires ver != nil && DecodedTx(&ver.SignedTransaction)
 //@   maypanic
 //@   modifies nothing
+//@   -- the frame is CHECKED (no `noframe`): Marshal writes no pre-existing cell, in particular not the cached payload bytes ver.pmbytes[..cap]
+//@   ensures [bytes] seq(result) == MarshalBytes(ver)
 //@   -- C31's size abstraction: MLenOf(ver) names len(ver.Marshal()); with config.Debug == true (a constant of this tree) Marshal
 //@   -- re-decodes its output and panics when it exceeds config.TransactionMaximumSize. Assumed, not verified against the body.
 //@   assumes len(result) == MLenOf(ver) && 0 < len(result) && len(result) <= config.TransactionMaximumSize && fresh(result)
@@ -335,6 +337,8 @@ package common
 //@   maypanic
 //@   modifies ver.pmbytes
 //@   ensures [cached] result == ver.pmbytes && (old(len(ver.pmbytes)) > 0 ==> result == old(ver.pmbytes))
+//@   -- a payload encoding computed by this call is PayloadBytes of the entry state: a function of the payload fields only
+//@   ensures [payload-only] old(len(ver.pmbytes)) == 0 ==> seq(result) == old(PayloadBytes(ver))
 //@   ensures [auth-untouched] ver.SignaturesMap == old(ver.SignaturesMap) && ver.AggregatedSignature == old(ver.AggregatedSignature)
 //@   ensures [payload-untouched] TxPayloadOK(&ver.SignedTransaction.Transaction)
 
@@ -347,6 +351,9 @@ package common
 //@   maypanic
 //@   modifies ver.pmbytes, ver.hash
 //@   ensures [cached] result == ver.hash && (old(ver.hash.HasValue()) ==> result == old(ver.hash) && ver.pmbytes == old(ver.pmbytes))
+//@   -- content addressing: a hash computed by this call (nothing cached) is Blake3 of PayloadBytes: no authorisation field enters it
+//@   ensures [hash-of-payload] !old(ver.hash.HasValue()) && old(len(ver.pmbytes)) == 0 ==> result == crypto.Blake3Of(old(PayloadBytes(ver)))
+//@   ensures [hash-of-cache] !old(ver.hash.HasValue()) && old(len(ver.pmbytes)) > 0 ==> result == crypto.Blake3Of(old(seq(ver.pmbytes)))
 //@   -- added for C23, ASSUMED: a Blake3 digest is never the all-zero string (the code itself uses the zero hash as "not cached yet")
 //@   assumes [nonzero] result.HasValue()
 //@   ensures [auth-untouched] ver.SignaturesMap == old(ver.SignaturesMap) && ver.AggregatedSignature == old(ver.AggregatedSignature)
